@@ -282,6 +282,25 @@ def check_stats(c):
     require(r1.keys() == k1.keys() and all(eqd(r1[nm], k1[nm]) for nm in k1) and all(eqd(r2[nm], k2[nm]) for nm in k2) and eqd(o1, ko1), "ownership:earlier-result-changed",
             "a statistics result returned earlier changed when the same System / observable object was asked again")
     require(all(r1[nm]["num_samples"] == 6 and r2[nm]["num_samples"] == 9 for nm in k1), "ownership:earlier-result-changed", "held statistics results report the wrong sample counts")
+    # default names: a user-defined observable that sets no name is called after its class - also when it derives from another user-defined
+    # observable whose name has been read before (lifecycle order: base first)
+    from qucumber.observables import ObservableBase
+
+    class BaseObs(ObservableBase):
+        def apply(self, nn_state, samples):
+            return samples.double().sum(-1)
+
+    class DerivedObs(BaseObs):
+        def apply(self, nn_state, samples):
+            return 2.0 * samples.double().sum(-1) + 1.0
+
+    b_, d_ = BaseObs(), DerivedObs()
+    first_name = b_.name
+    sfs = System(b_, d_).statistics_from_samples(state, probe.clone())
+    require(first_name == "BaseObs" and d_.name == "DerivedObs" and set(sfs.keys()) == {"BaseObs", "DerivedObs"}, "default-name",
+            f"default names of user-defined observables: base {first_name!r}, derived {d_.name!r}, System keys {sorted(sfs.keys())}")
+    require(abs(sfs["DerivedObs"]["mean"] - (2.0 * sfs["BaseObs"]["mean"] + 1.0)) <= 1e-12 * (1 + abs(sfs["BaseObs"]["mean"])), "default-name",
+            "the statistics reported under the derived observable's name are not those of the derived observable")
     nt = (draws >= 2 and ns % chains != 0) or chains == 1
     return {"nontrivial": nt, "labels": [f"type={c['type']}", "mode=" + c["mode"], "system" if c["system"] else "single"] + (["chains=1"] if chains == 1 else []) + [f"draws>=2"] * (draws >= 2)}
 
